@@ -80,7 +80,10 @@ package complexity
 //@   ensures res0 == acc
 //@   ensures res0 >= 0
 
+// The operation is costed with exactly the variables of the request as the executor coerced them (an explicit null
+// is a present entry and stays one), on the operation handed in, against the executable schema's own schema.
 //@ func Calculate [C14]
 //@   requires op != nil && es != nil
+//@   at! `walker.selectionSetComplexity(ctx, op.SelectionSet)` requires walker.vars == vars && walker.es == es && arg1 == op.SelectionSet
 //@   ensures res0 >= 0
 //@   ensures calls(selectionSetComplexity) == 1
